@@ -87,9 +87,13 @@ def sample(rng, axes=None, **fixed):
 
 
 def scaling_weights(rng, n, m, span=6):
-    return {"vw": [int(v) for v in rng.integers(-span, span + 1, size=n)],
-            "cw": [int(v) for v in rng.integers(-span, span + 1, size=m)],
-            "ow": int(rng.integers(-span, span + 1))}
+    out = {"vw": [int(v) for v in rng.integers(-span, span + 1, size=n)],
+           "cw": [int(v) for v in rng.integers(-span, span + 1, size=m)],
+           "ow": int(rng.integers(-span, span + 1))}
+    # (drawn from a stream of its own so that the weights themselves are the ones generated before this option existed)
+    r2 = np.random.default_rng([n, m, span, abs(out["ow"]), 4711])
+    out["dtype"] = str(r2.choice(["int64", "int64", "int32", "int16", "int8"]))
+    return out
 
 
 def make_params(cfg, spec=None, weights=None, **extra):
@@ -114,7 +118,12 @@ def make_params(cfg, spec=None, weights=None, **extra):
     if sc == "custom":
         w = weights or c.get("weights")
         kw["scaling_type"] = ScalingType.Custom
-        kw["scaling"] = Scaling(np.array(w["vw"], dtype=np.int64), np.array(w["cw"], dtype=np.int64), int(w["ow"]))
+        # the integer dtype in which the caller stores the weights (all of int8 / int16 / int32 / int64 are accepted)
+        wdt = np.dtype(w.get("dtype", "int64"))
+        if wdt.itemsize < 8 and (np.max(np.abs(w["vw"]), initial=0) > np.iinfo(wdt).max
+                                 or np.max(np.abs(w["cw"]), initial=0) > np.iinfo(wdt).max):
+            wdt = np.dtype("int64")
+        kw["scaling"] = Scaling(np.array(w["vw"], dtype=wdt), np.array(w["cw"], dtype=wdt), int(w["ow"]))
     elif sc != "none":
         kw["scaling_type"] = ScalingType[sc]
         x0 = spec.x0 if (spec is not None and spec.x0 is not None) else np.zeros(spec.n)
